@@ -15,6 +15,16 @@ A configuration (JSON-able dict) selects one decorated target:
   in the histories; the reference keeps one independent cache per decorated function.  Pair configurations use a
   reduced spelling menu (x(a), x(a, b=1), x(a=a)); the full menu is covered by the single-function configurations.
 
+Besides single completed calls the operation tables contain
+  * "together[X | Y]"  (blocking body kind only): one @asynq driver task yields [fn.asynq(X...), fn.asynq(Y...)], so both
+    calls are in flight across the same batch flush (same key / different keys / different instances / the two functions
+    of a pair configuration).  Reference: both look the cache up before either stores (hit = stored value, no body run;
+    miss = own fresh value); two misses of the SAME key may run the body once or twice; afterwards every value computed
+    is stored (LRU: the order of the two look-ups and of the two stores is left open, the reference adopts the
+    permitted order that the real cache shows) and later calls must hit.
+  * "X, whose body synchronously calls Y"  (both body kinds): the body of X re-enters the cached function with another
+    key before it returns; reference = call Y completed inside the miss of X.
+
 A history is a tuple of indices into the configuration's operation table.  Every history is executed on fresh
 real objects (fresh @asynq function, fresh decorator, fresh instances, fresh scheduler); the reference runs in
 lock step.  Canonical state = (reference cache state, real cache content read from the decorator's closure /
@@ -46,7 +56,7 @@ class HErr(Exception):
 
 
 class World(object):
-    __slots__ = ("runs", "block", "flushes", "active", "armed", "now", "bad")
+    __slots__ = ("runs", "block", "flushes", "active", "armed", "now", "bad", "reenter", "inner")
 
     def __init__(self, block, start=CLOCK_START):
         self.runs = []  # body-run log
@@ -56,6 +66,14 @@ class World(object):
         self.armed = False  # alazy: next body run raises
         self.now = start
         self.bad = []  # harness inconsistencies
+        self.reenter = None  # thunk the next body run calls synchronously (re-entrant body)
+        self.inner = None  # outcome of that nested call
+
+
+def _reenter(w):
+    r = w.reenter
+    w.reenter = None
+    r()
 
 
 CUR = None  # the world of the history being executed
@@ -95,7 +113,10 @@ class CItem(BatchItemBase):
 
 def f_imm(a, b=2, *, c=0):
     rec = ("f", a, b, c)
-    CUR.runs.append(rec)
+    w = CUR
+    w.runs.append(rec)
+    if w.reenter is not None:
+        _reenter(w)
     if a == RAISE_A and b == RAISE_2ND:
         raise HErr(rec)
     return rec
@@ -105,6 +126,8 @@ def f_block(a, b=2, *, c=0):
     w = CUR
     rec = ("f", a, b, c)
     w.runs.append(rec)
+    if w.reenter is not None:
+        _reenter(w)
     got = yield CItem(w, rec)
     if got != ("item", rec):
         w.bad.append("batch item delivered %r" % (got,))
@@ -115,7 +138,10 @@ def f_block(a, b=2, *, c=0):
 
 def m_imm(self, a, b=2):
     rec = ("m", self.slot, a, b)
-    CUR.runs.append(rec)
+    w = CUR
+    w.runs.append(rec)
+    if w.reenter is not None:
+        _reenter(w)
     if a == RAISE_A and b == RAISE_2ND:
         raise HErr(rec)
     return rec
@@ -125,6 +151,8 @@ def m_block(self, a, b=2):
     w = CUR
     rec = ("m", self.slot, a, b)
     w.runs.append(rec)
+    if w.reenter is not None:
+        _reenter(w)
     got = yield CItem(w, rec)
     if got != ("item", rec):
         w.bad.append("batch item delivered %r" % (got,))
@@ -135,7 +163,10 @@ def m_block(self, a, b=2):
 
 def n_imm(self, a, *, c=0):
     rec = ("n", self.slot, a, c)
-    CUR.runs.append(rec)
+    w = CUR
+    w.runs.append(rec)
+    if w.reenter is not None:
+        _reenter(w)
     if a == RAISE_A and c == RAISE_2ND:
         raise HErr(rec)
     return rec
@@ -145,6 +176,8 @@ def n_block(self, a, *, c=0):
     w = CUR
     rec = ("n", self.slot, a, c)
     w.runs.append(rec)
+    if w.reenter is not None:
+        _reenter(w)
     got = yield CItem(w, rec)
     if got != ("item", rec):
         w.bad.append("batch item delivered %r" % (got,))
@@ -155,7 +188,10 @@ def n_block(self, a, *, c=0):
 
 def p_imm(self, a, b=2, *, c=0):
     rec = ("p", self.slot, a, b, c)
-    CUR.runs.append(rec)
+    w = CUR
+    w.runs.append(rec)
+    if w.reenter is not None:
+        _reenter(w)
     if a == RAISE_A and b == RAISE_2ND:
         raise HErr(rec)
     return rec
@@ -165,6 +201,8 @@ def p_block(self, a, b=2, *, c=0):
     w = CUR
     rec = ("p", self.slot, a, b, c)
     w.runs.append(rec)
+    if w.reenter is not None:
+        _reenter(w)
     got = yield CItem(w, rec)
     if got != ("item", rec):
         w.bad.append("batch item delivered %r" % (got,))
@@ -199,7 +237,10 @@ def z_block():
 def _twin_f(tag):
     def imm(a, b=2, *, c=0):
         rec = (tag, a, b, c)
-        CUR.runs.append(rec)
+        w = CUR
+        w.runs.append(rec)
+        if w.reenter is not None:
+            _reenter(w)
         if a == RAISE_A and b == RAISE_2ND:
             raise HErr(rec)
         return rec
@@ -208,6 +249,8 @@ def _twin_f(tag):
         w = CUR
         rec = (tag, a, b, c)
         w.runs.append(rec)
+        if w.reenter is not None:
+            _reenter(w)
         got = yield CItem(w, rec)
         if got != ("item", rec):
             w.bad.append("batch item delivered %r" % (got,))
@@ -222,7 +265,10 @@ def _twin_f(tag):
 def _twin_m(tag):
     def imm(self, a, b=2):
         rec = (tag, self.slot, a, b)
-        CUR.runs.append(rec)
+        w = CUR
+        w.runs.append(rec)
+        if w.reenter is not None:
+            _reenter(w)
         if a == RAISE_A and b == RAISE_2ND:
             raise HErr(rec)
         return rec
@@ -231,6 +277,8 @@ def _twin_m(tag):
         w = CUR
         rec = (tag, self.slot, a, b)
         w.runs.append(rec)
+        if w.reenter is not None:
+            _reenter(w)
         got = yield CItem(w, rec)
         if got != ("item", rec):
             w.bad.append("batch item delivered %r" % (got,))
@@ -336,7 +384,7 @@ KEYFNS = {("f", "norm"): kf_f_norm, ("f", "coarse"): kf_f_coarse, ("m", "norm"):
 
 class Op(object):
     __slots__ = ("kind", "form", "slot", "args", "kwargs", "norm", "names", "key", "text", "feats", "raises",
-                 "value", "shape", "step", "unit", "tag")
+                 "value", "shape", "step", "unit", "tag", "sub")
 
     def __init__(self, kind):
         self.kind = kind
@@ -355,6 +403,7 @@ class Op(object):
         self.step = 0
         self.unit = 0
         self.tag = None
+        self.sub = ()
 
 
 FORMS = ("sync", "asynq-value")
@@ -403,7 +452,7 @@ def _reduced(args, kwargs):
     return not args and list(kwargs) == ["a"]
 
 
-def _call_ops(sig, slots, refkey, tag=None, unit=0, reduced=False):
+def _call_ops(sig, slots, refkey, tag=None, unit=0, reduced=False, forms=(0, 1)):
     """call operations for body signature `sig` ("f" function, "m"/"n"/"p" methods) on the given instance slots;
     `tag` names the decorated function when it is not the signature's own (the twin of a pair configuration)"""
     body = BODIES[(sig, "imm")]
@@ -415,7 +464,7 @@ def _call_ops(sig, slots, refkey, tag=None, unit=0, reduced=False):
         for args, kwargs in _spellings(sig):
             if reduced and not _reduced(args, kwargs):
                 continue
-            for form in (0, 1):
+            for form in forms:
                 op = Op("call")
                 op.unit = unit
                 op.tag = tag
@@ -459,6 +508,94 @@ def _call_ops(sig, slots, refkey, tag=None, unit=0, reduced=False):
                 op.feats = ft
                 ops.append(op)
     return ops
+
+
+@_asynq()
+def _safe(target, args, kwargs):
+    """one of the calls issued together: its own outcome, so that a raising twin does not hide it"""
+    try:
+        v = yield target.asynq(*args, **kwargs)
+    except BaseException as e:
+        if isinstance(e, (KeyboardInterrupt, SystemExit, MemoryError, GeneratorExit)):
+            raise
+        return _outcome(e)
+    return ("ok", v)
+
+
+@_asynq()
+def _together(calls):
+    """the driver task of a "together" operation: both calls in flight across the same flush"""
+    return (yield [_safe.asynq(t, a, k) for t, a, k in calls])
+
+
+def _spelled(op):
+    return op.text.rsplit(" [", 1)[0]
+
+
+def _pick(ops, unit, slot, args, kwargs):
+    for op in ops:
+        if op.kind == "call" and op.form == 0 and op.unit == unit and op.slot == slot and op.args == args and op.kwargs == kwargs:
+            return op
+    return None
+
+
+def _overlap_menu(ops, unit, slot, second):
+    """the calls offered for together / re-entry operations: x(1), x(2), x(1, <2nd>=1), x(a=1), x(2, <2nd>=1) (raises)"""
+    menu = [((1,), {}), ((2,), {}), ((1,), {second: 1}), ((), {"a": 1}), ((2,), {second: 1})]
+    return [o for o in (_pick(ops, unit, slot, a, k) for a, k in menu) if o is not None]
+
+
+def _both_op(a, b):
+    op = Op("both")
+    op.sub = (a, b)
+    op.text = "together[%s | %s]" % (_spelled(a), _spelled(b))
+    op.feats = sorted(set([f for f in a.feats + b.feats if not f.startswith(("form:", "npos:"))] + ["overlapping-calls"]
+                          + (["same-key"] if (a.unit, a.slot, a.key) == (b.unit, b.slot, b.key) else ["different-keys"])))
+    op.tag = a.tag
+    op.slot = a.slot
+    return op
+
+
+def _reenter_op(a, b):
+    op = Op("reenter")
+    op.sub = (a, b)
+    op.text = "%s, whose body synchronously calls %s [sync]" % (_spelled(a), _spelled(b))
+    op.feats = sorted(set([f for f in a.feats if not f.startswith("form:")] + ["reentrant-body", "form:sync"]))
+    op.tag = a.tag
+    op.slot = a.slot
+    return op
+
+
+def _extra_ops(ops, units, slots, second, block, pair):
+    """together / re-entry operations over the call table `ops` (simplest first)"""
+    out = []
+    menus = {(u, sl): _overlap_menu(ops, u, sl, second) for u in units for sl in slots}
+    if not pair:
+        for u in units:
+            for sl in slots:
+                m = menus[(u, sl)]
+                if block:
+                    # same key same spelling, same key other spelling, different keys, with a raising twin, both raising
+                    for i, j in ((0, 0), (0, 3), (0, 1), (0, 2), (1, 2), (0, 4), (4, 4)):
+                        if i < len(m) and j < len(m):
+                            out.append(_both_op(m[i], m[j]))
+                for i, j in ((0, 1), (0, 2), (1, 0)):
+                    if i < len(m) and j < len(m) and m[i].key != m[j].key:
+                        out.append(_reenter_op(m[i], m[j]))
+            if block and len(slots) > 1:
+                a, b = menus[(u, slots[0])], menus[(u, slots[1])]
+                out.append(_both_op(a[0], b[0]))
+                out.append(_both_op(a[0], b[1]))
+    else:
+        for sl in slots[:1]:
+            m0, m1 = menus[(units[0], sl)], menus[(units[1], sl)]
+            if block:
+                out.append(_both_op(m0[0], m1[0]))
+                out.append(_both_op(m0[0], m1[1]))
+                out.append(_both_op(m0[0], m0[1]))
+            out.append(_reenter_op(m0[0], m1[0]))
+            out.append(_reenter_op(m1[0], m0[1]))
+    return out
 
 
 def tok(x, _simple=(int, str, type(None), bool)):
@@ -618,6 +755,26 @@ class Runtime(object):
         return self.viol("wrong-value", "%s: returned %r; the reference cache gives %r" % (call, v, exp), op,
                          self.dyn_feats(op))
 
+    def judge_sub(self, op, sub, real, ran, exp, exp_ran, hit_expected, what, extra):
+        """one call of a together / re-entry operation through the ordinary call-level oracle"""
+        v = self.classify_call(sub, real, ran, exp, exp_ran, hit_expected, what)
+        if v is None:
+            return None
+        v["features"] = sorted(set(v["features"]) | set(op.feats) | set(extra))
+        v["msg"] = "in %s: %s" % (op.text, v["msg"])
+        return v
+
+    def split_runs(self, a, b, ran, miss_a, miss_b):
+        """attributes the body runs of a two-call operation to its calls; returns (ran_a, ran_b, leftover)"""
+        if a.value == b.value:
+            if miss_a and miss_b and len(ran) == 1 and ran[0] == a.value:
+                return list(ran), list(ran), []  # one body run served both callers of the same key (not forbidden)
+            mine = [r for r in ran if r == a.value]
+            return mine[:1], mine[1:2], [r for r in ran if r != a.value] + mine[2:]
+        ra = [r for r in ran if r == a.value]
+        rb = [r for r in ran if r == b.value]
+        return ra, rb, [r for r in ran if r != a.value and r != b.value]
+
     def dyn_feats(self, op):
         return []
 
@@ -641,6 +798,7 @@ class AlruRT(Runtime):
         self.slots = (None,) if self.sig == "f" else ((0,) if self.pair else (0, 1))
         for u, tag in enumerate(self.tags):
             self.ops += _call_ops(self.sig, self.slots, self._refkey, tag=tag, unit=u, reduced=self.pair)
+        self.ops += _extra_ops(self.ops, list(range(len(self.tags))), list(self.slots), "b", self.block, self.pair)
         self.bodies = [BODIES[(tag, cfg["body"])] for tag in self.tags]
         self._last_ent = None
 
@@ -670,11 +828,13 @@ class AlruRT(Runtime):
     def enabled(self):
         return range(len(self.ops))
 
-    def _invoke(self, op):
+    def _target(self, op):
         if self.insts is None:
-            t = self.targets[op.unit]
-        else:
-            t = getattr(self.insts[op.slot], op.tag)
+            return self.targets[op.unit]
+        return getattr(self.insts[op.slot], op.tag)
+
+    def _invoke(self, op):
+        t = self._target(op)
         try:
             if op.form == 0:
                 return ("ok", t(*op.args, **op.kwargs))
@@ -691,6 +851,10 @@ class AlruRT(Runtime):
         return ["respelled" if ent[1] != op.shape else "same-spelling"]
 
     def step(self, op):
+        if op.kind == "both":
+            return self._step_both(op)
+        if op.kind == "reenter":
+            return self._step_reenter(op)
         w = self.w
         n0 = len(w.runs)
         real = self._invoke(op)
@@ -722,31 +886,157 @@ class AlruRT(Runtime):
         v = self.classify_call(op, real, ran, exp, exp_ran, ent is not None, what)
         if v is not None:
             return [v]
-        # cache content (explicit parts of the statement: no entry after a raise, <= maxsize, LRU victim)
+        return self._check_content(op, self.refs, exp[0] == "err", evicted, op.unit)
+
+    def _check_content(self, op, refs, raised, evicted, unit, ordered=False):
+        """cache content against the reference caches `refs` (explicit parts of the statement: no entry after a
+        raise, <= maxsize, LRU victim); `ordered` also compares the recency order"""
         for u, tag in enumerate(self.tags):
             cache = self.caches[u]
             if cache is None:
                 continue
             who = "%s's cache" % tag if self.pair else "the cache"
             real_vals = [tok(x) for x in cache.values()]
-            ref_vals = [e[0] for e in self.refs[u].values()]
+            ref_vals = [e[0] for e in refs[u].values()]
+            if ordered and real_vals != ref_vals and sorted(real_vals, key=repr) == sorted(ref_vals, key=repr):
+                return [self.viol("lru-order", "%s: %s holds %r (least recently used first), the reference %r"
+                                  % (op.text, who, real_vals, ref_vals), op)]
             if len(real_vals) > self.maxsize:
                 return [self.viol("lru-oversize", "%s: %s holds %d entries, maxsize is %d"
                                   % (op.text, who, len(real_vals), self.maxsize), op)]
             if sorted(real_vals, key=repr) != sorted(ref_vals, key=repr):
-                if u != op.unit and cache is self.caches[op.unit]:
+                if u != unit and cache is self.caches[unit]:
                     return [self.viol("cache-shared-between-functions",
                                       "%s: the two functions decorated with one alru_cache(...) object share ONE cache object "
                                       "(one key space, one maxsize budget): %s holds %r, its own reference cache %r"
                                       % (op.text, who, real_vals, ref_vals), op)]
-                if exp[0] == "err":
+                if raised:
                     return [self.viol("raise-left-entry", "%s: the body raised but the cache content changed: %s holds %r, reference %r"
                                       % (op.text, who, real_vals, ref_vals), op)]
-                if evicted is not None and u == op.unit:
+                if evicted is not None and u == unit:
                     return [self.viol("lru-victim", "%s: cache full; the reference evicts the least recently used %r, %s now holds %r"
                                       " (reference %r)" % (op.text, evicted[1][0], who, real_vals, ref_vals), op)]
                 return [self.viol("content-mismatch", "%s: %s holds %r, the reference %r" % (op.text, who, real_vals, ref_vals), op)]
         return []
+
+    # ---- operations made of two calls -----------------------------------------------------------------------------
+    def _expect(self, sub, ent):
+        if ent is not None:
+            return ("ok", ent[0]), [], "an entry for this key was stored by %s" % ent[2]
+        what = "no entry for this key" + (" in %s's own cache" % sub.tag if self.pair else "")
+        if sub.raises:
+            return ("err", sub.value), [sub.value], what
+        return ("ok", sub.value), [sub.value], what
+
+    def _store(self, refs, sub, evicted):
+        r = refs[sub.unit]
+        if sub.key in r:
+            r.move_to_end(sub.key)  # storing an existing key refreshes it
+            return
+        if len(r) >= self.maxsize:
+            evicted.append(r.popitem(last=False))
+        r[sub.key] = (sub.value, sub.shape, sub.text)
+
+    def _step_both(self, op):
+        a, b = op.sub
+        w = self.w
+        n0 = len(w.runs)
+        try:
+            res = _together([(self._target(a), a.args, a.kwargs), (self._target(b), b.args, b.kwargs)])
+        except BaseException as e:
+            if isinstance(e, (KeyboardInterrupt, SystemExit, MemoryError)):
+                raise
+            return [self.viol("unexpected-exception", "%s: the driver task failed with %r" % (op.text, e), op)]
+        ran = w.runs[n0:]
+        self.count("together operations")
+        # both calls look the cache up before either of them stores
+        ea, eb = self.refs[a.unit].get(a.key), self.refs[b.unit].get(b.key)
+        ran_a, ran_b, left = self.split_runs(a, b, ran, ea is None, eb is None)
+        if left:
+            return [self.viol("body-ran-twice", "%s: unexpected extra body runs %r (all runs: %r)" % (op.text, left, ran), op)]
+        for sub, ent, real, rn in ((a, ea, res[0], ran_a), (b, eb, res[1], ran_b)):
+            self._last_ent = ent
+            exp, exp_ran, what = self._expect(sub, ent)
+            v = self.judge_sub(op, sub, real, rn, exp, exp_ran, ent is not None, what, ())
+            if v is not None:
+                return [v]
+        # every permitted order of the two look-ups and of the two stores
+        raised = (ea is None and a.raises) or (eb is None and b.raises)
+        cands = []
+        for lk in (((a, ea), (b, eb)), ((b, eb), (a, ea))):
+            for st in (((a, ea), (b, eb)), ((b, eb), (a, ea))):
+                refs = [OrderedDict(r) for r in self.refs]
+                evicted = []
+                for sub, ent in lk:
+                    if ent is not None:
+                        refs[sub.unit].move_to_end(sub.key)
+                for sub, ent in st:
+                    if ent is None and not sub.raises:
+                        self._store(refs, sub, evicted)
+                sig = tuple([tuple(r.keys()) for r in refs])
+                if all(sig != c[0] for c in cands):
+                    cands.append((sig, refs, evicted))
+        first = None
+        for ordered in (True, False):
+            for sig, refs, evicted in cands:
+                v = self._check_content(op, refs, raised, evicted[0] if evicted else None, a.unit, ordered)
+                if first is None:
+                    first = v
+                if not v:
+                    self.refs = refs
+                    self.count("evictions", len(evicted))
+                    return []
+        return first
+
+    def _step_reenter(self, op):
+        a, b = op.sub  # the body of a calls b synchronously before it returns
+        w = self.w
+        n0 = len(w.runs)
+        w.inner = None
+
+        def thunk():
+            w.inner = self._invoke(b)
+
+        w.reenter = thunk
+        real = self._invoke(a)
+        w.reenter = None
+        ran = w.runs[n0:]
+        self.count("re-entrant operations")
+        refs = self.refs
+        ea = refs[a.unit].get(a.key)
+        self._last_ent = ea
+        evicted = []
+        exp, exp_ran, what = self._expect(a, ea)
+        eb = None
+        if ea is not None:
+            refs[a.unit].move_to_end(a.key)
+        else:
+            eb = refs[b.unit].get(b.key)
+            if eb is not None:
+                refs[b.unit].move_to_end(b.key)
+            elif not b.raises:
+                self._store(refs, b, evicted)
+            if not a.raises:
+                self._store(refs, a, evicted)
+        ran_a = [r for r in ran if r == a.value]
+        ran_b = [r for r in ran if r == b.value]
+        left = [r for r in ran if r != a.value and r != b.value]
+        if left:
+            return [self.viol("wrong-body-args", "%s: unexpected body runs %r" % (op.text, left), op)]
+        v = self.judge_sub(op, a, real, ran_a, exp, exp_ran, ea is not None, what, ())
+        if v is not None:
+            return [v]
+        if ea is None:
+            if w.inner is None:
+                return [self.viol("harness", "%s: the body ran but did not re-enter" % op.text, op)]
+            self._last_ent = eb
+            expb, expb_ran, whatb = self._expect(b, eb)
+            v = self.judge_sub(op, b, w.inner, ran_b, expb, expb_ran, eb is not None, whatb + " (nested call)", ())
+            if v is not None:
+                return [v]
+        elif ran_b or w.inner is not None:
+            return [self.viol("spurious-miss", "%s: the outer call is a hit, yet the body ran and re-entered" % op.text, op)]
+        return self._check_content(op, refs, exp[0] == "err", evicted[0] if evicted else None, a.unit)
 
     def canon(self):
         w = self.w
@@ -768,14 +1058,17 @@ class AcpiRT(Runtime):
         if self.pair:
             self.base_feats.append("shared-decorator")
         for u, tag in enumerate(self.tags):
-            self.ops += _call_ops(self.sig, (0, 1), lambda op: op.norm[1:], tag=tag, unit=u, reduced=self.pair)
-        self.ncalls = len(self.ops)
+            # (the pair configuration uses the synchronous calling form only; both forms are covered without "pair")
+            self.ops += _call_ops(self.sig, (0, 1), lambda op: op.norm[1:], tag=tag, unit=u, reduced=self.pair,
+                                  forms=(0,) if self.pair else (0, 1))
+        extra = _extra_ops(self.ops, list(range(len(self.tags))), [0, 1], "c" if self.sig == "n" else "b", self.block, self.pair)
         for slot in (0, 1):
             op = Op("del")
             op.slot = slot
             op.text = "del I%d; gc.collect()" % slot
             op.feats = ["delete-instance"]
             self.ops.append(op)
+        self.ops += extra
         self.bodies = [BODIES[(tag, cfg["body"])] for tag in self.tags]
         self._last_ent = None
 
@@ -793,11 +1086,7 @@ class AcpiRT(Runtime):
         self._last_ent = None
 
     def enabled(self):
-        en = list(range(self.ncalls))
-        for slot in (0, 1):
-            if self.insts[slot] is not None:
-                en.append(self.ncalls + slot)
-        return en
+        return [i for i, op in enumerate(self.ops) if not (op.kind == "del" and self.insts[op.slot] is None)]
 
     def dyn_feats(self, op):
         ent = self._last_ent
@@ -807,6 +1096,104 @@ class AcpiRT(Runtime):
         if ent is not None:
             ft.append("respelled" if ent[1] != op.shape else "same-spelling")
         return ft
+
+    def _target(self, op):
+        return getattr(self.insts[op.slot], op.tag)
+
+    def _ensure(self, slot):
+        if self.insts[slot] is None:
+            # a new object takes the slot (it may well get the id() of the collected one)
+            self.insts[slot] = self.cls(slot)
+            for r in self.refs:
+                r[slot] = {}
+            self.generation[slot] += 1
+            self.count("instances re-created")
+
+    def _expect(self, sub, ent):
+        if ent is not None:
+            return ("ok", ent[0]), [], "an entry for this key and instance was stored by %s" % ent[2]
+        what = "no entry for this key on this instance" + (" in %s's own cache" % sub.tag if self.pair else "")
+        if sub.raises:
+            return ("err", sub.value), [sub.value], what
+        return ("ok", sub.value), [sub.value], what
+
+    def _step_both(self, op):
+        a, b = op.sub
+        w = self.w
+        self._ensure(a.slot)
+        self._ensure(b.slot)
+        n0 = len(w.runs)
+        try:
+            res = _together([(self._target(a), a.args, a.kwargs), (self._target(b), b.args, b.kwargs)])
+        except BaseException as e:
+            if isinstance(e, (KeyboardInterrupt, SystemExit, MemoryError)):
+                raise
+            return [self.viol("unexpected-exception", "%s: the driver task failed with %r" % (op.text, e), op)]
+        ran = w.runs[n0:]
+        self.count("together operations")
+        ra, rb = self.refs[a.unit][a.slot], self.refs[b.unit][b.slot]
+        ea, eb = ra.get(a.key), rb.get(b.key)  # both look up before either stores
+        ran_a, ran_b, left = self.split_runs(a, b, ran, ea is None, eb is None)
+        if left:
+            return [self.viol("body-ran-twice", "%s: unexpected extra body runs %r (all runs: %r)" % (op.text, left, ran), op)]
+        for sub, ent, real, rn in ((a, ea, res[0], ran_a), (b, eb, res[1], ran_b)):
+            self._last_ent = ent
+            exp, exp_ran, what = self._expect(sub, ent)
+            v = self.judge_sub(op, sub, real, rn, exp, exp_ran, ent is not None, what, self.dyn_feats(sub))
+            if v is not None:
+                return [v]
+        if ea is None and not a.raises:
+            ra[a.key] = (a.value, a.shape, a.text)
+        if eb is None and not b.raises:
+            rb[b.key] = (b.value, b.shape, b.text)
+        return self._content_check(op, (ea is None and a.raises) or (eb is None and b.raises))
+
+    def _step_reenter(self, op):
+        a, b = op.sub
+        w = self.w
+        self._ensure(a.slot)
+        self._ensure(b.slot)
+        n0 = len(w.runs)
+        w.inner = None
+
+        def thunk():
+            w.inner = self._invoke(b)
+
+        w.reenter = thunk
+        real = self._invoke(a)
+        w.reenter = None
+        ran = w.runs[n0:]
+        self.count("re-entrant operations")
+        ra, rb = self.refs[a.unit][a.slot], self.refs[b.unit][b.slot]
+        ea = ra.get(a.key)
+        self._last_ent = ea
+        exp, exp_ran, what = self._expect(a, ea)
+        eb = None
+        if ea is None:
+            eb = rb.get(b.key)
+            if eb is None and not b.raises:
+                rb[b.key] = (b.value, b.shape, b.text)
+            if not a.raises:
+                ra[a.key] = (a.value, a.shape, a.text)
+        ran_a = [r for r in ran if r == a.value]
+        ran_b = [r for r in ran if r == b.value]
+        left = [r for r in ran if r != a.value and r != b.value]
+        if left:
+            return [self.viol("wrong-body-args", "%s: unexpected body runs %r" % (op.text, left), op)]
+        v = self.judge_sub(op, a, real, ran_a, exp, exp_ran, ea is not None, what, ())
+        if v is not None:
+            return [v]
+        if ea is None:
+            if w.inner is None:
+                return [self.viol("harness", "%s: the body ran but did not re-enter" % op.text, op)]
+            self._last_ent = eb
+            expb, expb_ran, whatb = self._expect(b, eb)
+            v = self.judge_sub(op, b, w.inner, ran_b, expb, expb_ran, eb is not None, whatb + " (nested call)", ())
+            if v is not None:
+                return [v]
+        elif ran_b or w.inner is not None:
+            return [self.viol("spurious-miss", "%s: the outer call is a hit, yet the body ran and re-entered" % op.text, op)]
+        return self._content_check(op, exp[0] == "err")
 
     def _invoke(self, op):
         t = getattr(self.insts[op.slot], op.tag)
@@ -842,15 +1229,13 @@ class AcpiRT(Runtime):
     def step(self, op):
         if op.kind == "del":
             return self._delete(op)
+        if op.kind == "both":
+            return self._step_both(op)
+        if op.kind == "reenter":
+            return self._step_reenter(op)
         w = self.w
         slot = op.slot
-        if self.insts[slot] is None:
-            # a new object takes the slot (it may well get the id() of the collected one)
-            self.insts[slot] = self.cls(slot)
-            for r in self.refs:
-                r[slot] = {}
-            self.generation[slot] += 1
-            self.count("instances re-created")
+        self._ensure(slot)
         n0 = len(w.runs)
         real = self._invoke(op)
         ran = w.runs[n0:]
@@ -897,6 +1282,11 @@ class AcpiRT(Runtime):
                     if raised:
                         return [self.viol("raise-left-entry", "%s: the body raised but %s changed: holds %r, reference %r"
                                           % (op.text, who, rv, fv), op)]
+                    if all(x in fv for x in rv):
+                        return [self.viol("computed-value-not-stored",
+                                          "%s: %s holds %r; the reference also holds %r, computed for this live instance and "
+                                          "never evicted (per-instance caches have no size bound)"
+                                          % (op.text, who, rv, [x for x in fv if x not in rv]), op)]
                     return [self.viol("content-mismatch", "%s: %s holds %r, the reference %r" % (op.text, who, rv, fv), op)]
         return []
 
@@ -964,6 +1354,14 @@ class AlazyRT(Runtime):
             op.text = "%s.dirty()" % tag
             op.feats = ["dirty"]
             self.ops.append(op)
+        if self.block:
+            n = len(self.tags)
+            for u, v in [(0, 0)] + ([(0, 1), (1, 1)] if n > 1 else []):
+                op = Op("zboth")
+                op.sub = (u, v)
+                op.text = "together[%s() | %s()]" % (self.tags[u], self.tags[v])
+                op.feats = ["overlapping-calls", "same-key" if u == v else "different-keys"]
+                self.ops.append(op)
         for s in CLOCK_STEPS:
             op = Op("clock")
             op.step = s
@@ -981,7 +1379,9 @@ class AlazyRT(Runtime):
         self.begin()
         decorator = _tools.alazy_constant(ttl=self.ttl)  # ONE decorator object; a pair configuration applies it twice
         self.zs = [decorator(_asynq()(b)) for b in self.bodies]
-        self.cells = [None for _ in self.tags]  # per function: (value, refresh_time) ; None = nothing valid stored
+        # per function: (candidate values, refresh_time) ; None = nothing valid stored.  More than one candidate only
+        # after two overlapping recomputations (either result may be the one kept); the next hit settles it
+        self.cells = [None for _ in self.tags]
         self.armed = False
         self.nruns = 0
         self.since_dirty = [None for _ in self.tags]  # calls since the last dirty()
@@ -1003,6 +1403,8 @@ class AlazyRT(Runtime):
             w.armed = True
             self.armed = True
             return []
+        if k == "zboth":
+            return self._step_both(op)
         u = op.unit
         z = self.zs[u]
         if k == "dirty":
@@ -1053,10 +1455,12 @@ class AlazyRT(Runtime):
                 self.count("raising calls")
             else:
                 exp = ("ok", rec)
-                self.cells[u] = (rec, now)
+                self.cells[u] = ((rec,), now)
                 self.count("recomputations" if self.nruns > 1 else "misses")
         else:
-            exp = ("ok", cell[0])
+            if len(cell[0]) > 1 and real[0] == "ok" and tok(real[1]) in cell[0]:
+                cell = self.cells[u] = ((tok(real[1]),), cell[1])  # settles which overlapping result was kept
+            exp = ("ok", cell[0][0])
             exp_ran = []
             self.count("hits")
         v = self.classify_call(op, real, ran, exp, exp_ran, not miss, what)
@@ -1065,6 +1469,78 @@ class AlazyRT(Runtime):
         # the statement's clause for alazy_constant: dirty() / ttl expiry force exactly one recomputation
         v["sig"] = {"spurious-miss": "alazy-extra-recomputation", "stale-hit": "alazy-missing-recomputation"}.get(v["sig"], v["sig"])
         return [v]
+
+    def _stale(self, u):
+        cell = self.cells[u]
+        return cell is None or (self.ttl != 0 and self.w.now - cell[1] > self.ttl)
+
+    def _step_both(self, op):
+        w = self.w
+        units = op.sub
+        now = w.now
+        n0 = len(w.runs)
+        try:
+            res = _together([(self.zs[u], (), {}) for u in units])
+        except BaseException as e:
+            if isinstance(e, (KeyboardInterrupt, SystemExit, MemoryError)):
+                raise
+            return [self.viol("unexpected-exception", "%s: the driver task failed with %r" % (op.text, e), op)]
+        ran = w.runs[n0:]
+        self.count("together operations")
+        miss = [self._stale(u) for u in units]
+        self._why = ["overlapping-calls"]
+        # the body-run serials are consecutive; an armed failure hits the first body that runs
+        raising = ran[0] if (ran and self.armed) else None
+        for i, r in enumerate(ran):
+            if r[1] != self.nruns + 1 + i:
+                return [self.viol("harness", "%s: body-run serials %r do not continue %d" % (op.text, ran, self.nruns), op)]
+        if ran and self.armed:
+            self.armed = False
+        self.nruns += len(ran)
+        for u in set(units):
+            tag = self.tags[u]
+            mine = [r for r in ran if r[0] == tag]
+            ncalls = len([x for x in units if x == u])
+            if not miss[units.index(u)]:
+                if mine:
+                    return [self.viol("alazy-extra-recomputation", "%s: the body of %s ran (%r) although a valid value is stored"
+                                      % (op.text, tag, mine), op, self._why)]
+            elif not mine:
+                return [self.viol("alazy-missing-recomputation", "%s: the body of %s did not run although its value is stale or missing; "
+                                  "results %r" % (op.text, tag, [tok(x) for x in res]), op, self._why)]
+            elif len(mine) > ncalls:
+                return [self.viol("body-ran-twice", "%s: the body of %s ran %d times for %d call(s)" % (op.text, tag, len(mine), ncalls),
+                                  op, self._why)]
+        for i, u in enumerate(units):
+            tag = self.tags[u]
+            real = res[i]
+            got = tok(real[1]) if len(real) > 1 else None
+            if not miss[i]:
+                cell = self.cells[u]
+                if real[0] != "ok" or got not in cell[0]:
+                    return [self.viol("wrong-value", "%s: call %d returned %r, the stored value is %r" % (op.text, i + 1, real, cell[0]),
+                                      op, self._why)]
+                if len(cell[0]) > 1:
+                    self.cells[u] = ((got,), cell[1])
+                continue
+            mine = [r for r in ran if r[0] == tag]
+            if real[0] == "ok":
+                if got not in mine or got == raising:
+                    return [self.viol("wrong-value", "%s: call %d returned %r, which no successful body run of this operation produced "
+                                      "(runs %r)" % (op.text, i + 1, got, ran), op, self._why)]
+            elif real[0] == "err":
+                if got != raising:
+                    return [self.viol("unexpected-exception", "%s: call %d raised %r; body runs %r, failing run %r"
+                                      % (op.text, i + 1, got, ran, raising), op, self._why)]
+            else:
+                return [self.viol("unexpected-exception", "%s: call %d raised %s: %s" % (op.text, i + 1, real[1], real[2]), op, self._why)]
+        for u in set(units):
+            if miss[units.index(u)]:
+                good = tuple([r for r in ran if r[0] == self.tags[u] and r != raising])
+                if good:
+                    self.cells[u] = (good, now)
+                    self.count("recomputations")
+        return []
 
     def canon(self):
         w = self.w
